@@ -142,6 +142,9 @@ inductive Op where
   | realloc (i : Nat) (req : Req)
   /-- undo the immediately preceding successful realloc -/
   | rollbackRealloc
+  /-- rollback of a release (calcium's remove / dissociate re-add the workload's resources with
+      `SetNodeResourceUsage([w], delta, Incr)` when a later step fails): `w` becomes live again -/
+  | readd (w : WorkloadRes)
   /-- the same operation, but another plugin fails in its commit (cobalt rolls cpumem back) -/
   | failing (op : Op)
   deriving Repr, Inhabited
@@ -189,6 +192,10 @@ def step (sched : Sched) (s : State) : Op → State × Bool
       match rollbackRealloc s.node u.delta with
       | .ok n' => ({ node := n', live := s.live.set u.idx u.origin }, true)
       | .error _ => ({ s with undo := none }, false)
+  | .readd w =>
+    match setNodeResourceUsage s.node none [w] true true with
+    | .ok n' => ({ node := n', live := s.live ++ [w] }, true)
+    | .error _ => ({ s with undo := none }, false)
   | .failing op =>
     -- cpumem's part is what the operation would do; if it got as far as storing a new usage,
     -- the other plugin's failure makes cobalt roll it back; nothing else happens
